@@ -153,6 +153,9 @@ REPLAY_SCRIPT = textwrap.dedent(
             (base - 7200, base, base + 3600),      # fresh_time one hour NEWER
             (base + 1800, base + 2700, None),      # upstream 30 min / downstream 45 min after base: across the fold
             (base + 2700, base + 1800, None),
+            (base + 900, base + 2700, None),       # 01:45 EDT (first pass) vs 01:15 EST (second pass): later instant, earlier wall clock
+            (base + 2700, base + 900, None),
+            (base + 900, base + 900 + 60, base + 2700),
         ]
         for (tu, td, tf) in cases:
             seen = {}
@@ -162,7 +165,22 @@ REPLAY_SCRIPT = textwrap.dedent(
                         seen[(ru, rd, rf)] = rebuilt(tu, td, tf, ru, rd, rf)
             if len(set(seen.values())) > 1:
                 bad.append((tz, (tu, td, tf), seen))
-    for tz, case, seen in bad[:3]:
+    # the bundled file stores must report the file's mtime instant as naive LOCAL time (what the normalisation reads back)
+    import tempfile
+    from uberjob.stores import TextFileStore
+    fbad = []
+    with tempfile.TemporaryDirectory() as d:
+        st = TextFileStore(os.path.join(d, "f.txt")); st.write("x")
+        for tz in ["UTC", "America/New_York", "Europe/London", "Australia/Sydney", "Asia/Tokyo"]:
+            os.environ["TZ"] = tz; time.tzset()
+            for t in (1704067200, 1720000000, 1730611800 + 1800, 86400 * 200):   # winter, summer, inside the US fall-back hour, 1970
+                os.utime(st.path, (t, t))
+                got = st.get_modified_time()
+                inst = got.astimezone(dt.timezone.utc).timestamp() if got is not None else None
+                if inst is None or abs(inst - t) > 1e-3: fbad.append((tz, t, got, inst))
+    for b in fbad[:3]: print("file store reports a modified time that does not denote the file's mtime instant: TZ=%s mtime=%s reported=%r (instant %s)" % b)
+    if fbad: bad.append(("file-store", None, {}))
+    for tz, case, seen in [x for x in bad if x[1] is not None][:3]:
         print("TZ=%s instants(up,down,fresh)=%s: decisions differ between representations of the same instants:" % (tz, case))
         for k, v in seen.items(): print("   ", k, "-> (writes_up, writes_down) =", v)
     sys.exit(1 if bad else 0)
@@ -181,3 +199,11 @@ def _replay(ob):
 
 
 REPLAYS = [("times.*", _replay)]
+
+
+@unit("times.native-differential[bounded]", props=["C18"], assumptions=["bounded stand-in: 4 time zones x 4 instant triples x 27 representations; 5 zones x 4 file mtimes"],
+      min_obligations=1, kind="bounded")
+def times_bounded(ctx):
+    """bounded: the real uberjob.run on the same instants in naive-local / aware-UTC / aware-+05:30 form under 4 process time zones; file-store mtimes under 5 zones"""
+    r = _replay({})
+    ctx.check("bounded/staleness-decisions-depend-only-on-the-instants", bool(not r["reproduced"]), info=r["detail"][-2000:])
